@@ -67,6 +67,12 @@ theorem removeHopByHop_filter (h : Header) (conn : List Str) :
 
 /-! ### ServerHandle -/
 
+
+/-- with an empty token map no credentials are valid -/
+theorem basicAuth_nil (h : Header) : basicAuth [] h = false := by
+  unfold basicAuth
+  split <;> simp
+
 theorem serverHandle_forward_authed (toks : List Str) (msgs : List ClientMsg) (n k : Nat) (first : Req) (rest : List ClientMsg)
     (h : serverHandle (some toks) msgs n = .forward k first rest) :
     basicAuth toks first.header = true ∧ first.method ≠ connectLit ∧
